@@ -153,7 +153,7 @@ func init() {
 		o.Check(strings.Contains(e.Arg(mg, 1), "p1[i]"), "merge-arg", "the submitted alert must be merged in", mg)
 		o.Guarded(mg, "merge-found", "merging", L("("+gx+"#1 == nil)", true))
 		OLD := `\(\*am/store\.Alerts\)\.Get\(recv\.alerts, .*\)#0\.Alert`
-		NEW := `phi\(.*p1\[i\]\)\.Alert`
+		NEW := `(phi\(.*p1\[i\]\)|p1\[i\])\.Alert` // the submitted alert (the loop variable, re-assigned to the merge result or not)
 		a1 := LRe(`\(`+OLD+`\.StartsAt <t `+NEW+`\.EndsAt\)`, true)
 		a2 := LRe(`\(`+NEW+`\.EndsAt <t `+OLD+`\.EndsAt\)`, true)
 		b1 := LRe(`\(`+OLD+`\.StartsAt <t `+NEW+`\.StartsAt\)`, true)
